@@ -54,29 +54,45 @@ theorem scan_bad_usage_iff (cfg : Cfg) (t : Tree) (lk : Key) (le : EP) (rk : Key
   unfold scanArgsOk
   cases checkEmptyRange lk le rk re <;> cases r2l <;> simp
 
-/- OPEN: right-to-left not yet proved
+/-- no border node has the maximal tuple `(0xFF×8, link)` as its lower fence. A split never
+    produces such a fence (the fence is the first of at least seven moved entries), but `Inv` does
+    not exclude it, and the right-to-left descent — which routes by `(0xFF×8, 8)` — would end one
+    leaf too far left (`scan_spec_r2l_needs_fence`). -/
+def NoMaxFence (t : Tree) : Prop := ∀ L ∈ t, ∀ l ∈ L.leaves, l.fence ≠ some KT.max
 
 /-- a quiescent scan returns precisely the entries of the interval in ascending order, each with
     its current value, truncated to the first `max` entries (right-to-left with `max = 1`: the
     greatest one). `scanSpec` is the filter of the in-order content (C08: strictly ascending, equal
-    to what point lookups see). -/
+    to what point lookups see).
+    CORRECTED relative to the first draft: right-to-left needs `NoMaxFence`; forward scans need
+    nothing beyond `Inv`. -/
 theorem scan_spec (t : Tree) (lk : Key) (le : EP) (rk : Key) (re : EP) (max : Nat) (r2l : Bool)
-    (h : Inv t) (ha : scanArgsOk lk le rk re max r2l = true) :
+    (h : Inv t) (ha : scanArgsOk lk le rk re max r2l = true) (hm : r2l = true → NoMaxFence t) :
     (scan cfgFixed t lk le rk re max r2l).status = Status.OK ∧
     (scan cfgFixed t lk le rk re max r2l).tuples = scanSpec t lk le rk re max r2l :=
-  Yak.Tree.scan_spec t lk le rk re max r2l h ha
+  Yak.Tree.scan_spec t lk le rk re max r2l h ha hm
 
--/
+/-- `NoMaxFence` holds for a fresh storage and is preserved by `put` and `remove`, so every storage
+    reached by operations satisfies the hypothesis of `scan_spec`. -/
+theorem no_max_fence_reachable :
+    NoMaxFence Tree.empty ∧
+    (∀ (t : Tree) (k : Key) (v : Val) (u : Bool), Inv t → NoMaxFence t → NoMaxFence (put t k v u).tree) ∧
+    (∀ (t : Tree) (k : Key) (dirs : List Bool), NoMaxFence t → NoMaxFence (remove t k dirs).tree) :=
+  ⟨Yak.Tree.noMaxFence_empty, Yak.Tree.noMaxFence_put, Yak.Tree.noMaxFence_remove⟩
 
-/-- forward scans (`r2l = false`): a quiescent scan returns precisely the entries of the interval in
-    ascending order, each with its current value, truncated to the first `max` entries. `scanSpec`
-    is the filter of the in-order content (C08: strictly ascending, equal to what point lookups
-    see). -/
-theorem scan_spec_partial (t : Tree) (lk : Key) (le : EP) (rk : Key) (re : EP) (max : Nat)
+/-- the forward case on its own (no extra hypothesis). -/
+theorem scan_spec_forward (t : Tree) (lk : Key) (le : EP) (rk : Key) (re : EP) (max : Nat)
     (h : Inv t) (ha : scanArgsOk lk le rk re max false = true) :
     (scan cfgFixed t lk le rk re max false).status = Status.OK ∧
     (scan cfgFixed t lk le rk re max false).tuples = scanSpec t lk le rk re max false :=
-  ⟨Yak.Tree.scan_status_ok t lk le rk re max false h ha, Yak.Tree.scan_spec_fwd t lk le rk re max h ha⟩
+  Yak.Tree.scan_spec t lk le rk re max false h ha (fun e => by cases e)
+
+/-- the draft statement (right-to-left under `Inv` alone) is false: a well-formed tree whose
+    second leaf has the maximal tuple as fence. -/
+theorem scan_spec_r2l_needs_fence :
+    ∃ t : Tree, Inv t ∧ scanArgsOk [] .inf [] .inf 1 true = true ∧
+      (scan cfgFixed t [] .inf [] .inf 1 true).tuples ≠ scanSpec t [] .inf [] .inf 1 true :=
+  Yak.Tree.r2l_max_fence_counterexample
 
 /-- an INF endpoint ignores the key passed with it. -/
 theorem scan_inf_ignores_key (t : Tree) (lk lk' rk rk' : Key) (le re : EP) (max : Nat) (r2l : Bool) (h : Inv t) :
